@@ -78,3 +78,50 @@ def t_bankrupt_check(world):
 
 def tasks(tier):
     return [('socialize_loss', t_socialize), ('check_account_bankrupt', t_bankrupt_check)]
+
+
+# ---------------------------------------------------------------- C07.e: killed-by-bankruptcy is terminal for Bank::configure
+KILLED = ENUMS['BankOperationalState']['KilledByBankruptcy']
+
+
+def replay_configure(model, spec=None):
+    W_ = W
+    st0 = model.get(fsym('bank*', 'Bank', 'config.operational_state').decl().name(), KILLED)
+    oi = STRUCTS['BankConfigOpt'].index('operational_state')
+    new = model.get(f'cfg*.{oi}.some.tag', model.get(f'cfg*.{oi}.some', 1))
+    bank = {'config.operational_state': str(st0), 'config.asset_weight_init': str(W_ // 2), 'config.asset_weight_maint': str(W_ // 2),
+            'config.liability_weight_init': str(W_ + W_ // 4), 'config.liability_weight_maint': str(W_ + W_ // 8), 'config.oracle_max_age': '60',
+            'irc.curve_type': '1', 'irc.hundred_util_rate': '1000', 'irc.points': [[0, 0]] * 5}
+    req = {'fn': 'configure', 'bank': bank, 'operational_state': str(int(new))}
+    out = native([req])[0]
+    post = int(out['bank']['config.operational_state'])
+    viol = bool(out.get('ok')) and ((int(st0) == KILLED) != (post == KILLED))
+    return viol, {'request': req, 'native': {'ok': out.get('ok'), 'err': out.get('err'), 'post_state': post},
+                  'verdict': 'Bank::configure returned Ok and moved the bank across the KilledByBankruptcy boundary' if viol else 'not reproduced'}
+
+
+REPLAYERS = {'configure': replay_configure}
+
+
+def t_configure_terminal(world):
+    eng = world.engine(merge=True, opaque=[r'bank_config::<impl[^>]*>::validate$|BankConfigImpl>::validate$', r'InterestRateConfigImpl>::update$|interest_rate::<impl[^>]*>::update$'])
+    f = world.fn(r'bank\.rs[^>]*>::configure$')
+    bank = eng.ex.fresh('&mut Bank', 'bank'); cfg = eng.ex.fresh('&BankConfigOpt', 'cfg')
+    res = eng.run_fn(f, [bank, cfg])
+    ob = Ob('C07.e', 'Bank::configure: Ok never moves a bank out of (or into) KilledByBankruptcy, for all 16 optional fields at once',
+            [f.name], 'loop-free; all 16 Option fields symbolic, state-merged; BankConfig::validate opaque (may accept anything)', role='killed-terminal')
+    ob.paths = len(res)
+    st0 = fsym('bank*', 'Bank', 'config.operational_state')
+    for r, okc in ok_paths(res):
+        b1 = r['roots'][0]
+        st1 = ev(fget(eng, b1, 'Bank', 'config.operational_state'))
+        if ob.witness(eng, r, [okc]) is False: continue
+        ob.prove(eng, r, [okc, st0 == KILLED], st1 == KILLED, 'a killed bank stays killed (permanently shut)', role='leaves-killed', replay='configure')
+        ob.prove(eng, r, [okc, st0 != KILLED], st1 != KILLED, 'no admin can put a bank into the killed state', role='enters-killed', replay='configure')
+    ob.need_witness()
+    return [ob]
+
+
+_t0 = tasks
+def tasks(tier):
+    return _t0(tier) + [('configure_terminal', t_configure_terminal)]
